@@ -27,6 +27,8 @@ inductive Op
   | sleep (ms : Nat) | deliver (k : Nat) | dto (k m : Nat) | send (n a port len : Nat)
   | idx (n v : Nat) | del (n li : Nat) | swap (n li : Nat)
   | dl (j : Nat) | dlto (j m : Nat)               -- deliver counting back from the latest transmission
+  | dlm (j r c : Nat)                             -- deliver counting back, header re-framed: reserved := r, counter := c (0 = keep)
+  | dropAt (k : Nat)                              -- transmission k reaches its destination and is dropped at dispatch
   | cmcheck (n li : Nat) (inT outT : Bool)        -- connection manager traffic check
   | block (n m : Nat)                             -- node n reloads its CA pool with node m's certificates blocklisted
   deriving Repr, Inhabited
@@ -109,6 +111,11 @@ def Net.stepCore (w : Net) : Op → Net × Option Nat × String × Out
       match w.deliverTo h src m with
       | some (w', o) => (w', some m, s!"to{m}", o)
       | none => (w, none, "nonode", {})
+  | .dlm _ _ _ => (w, none, "nop", {})
+  | .dropAt k =>
+    match w.log[k]? with
+    | none => (w, none, "nop", {})
+    | some (_, _, dst) => if (w.node? dst).isSome then (w, some dst, s!"to{dst}", {}) else (w, none, "nonode", {})
   | .dl _ => (w, none, "nop", {})
   | .dlto _ _ => (w, none, "nop", {})
   | op =>
@@ -118,7 +125,10 @@ def Net.stepCore (w : Net) : Op → Net × Option Nat × String × Out
       | .rehs n a => (n, some (.rehs a))
       | .tick n => (n, some (.tick w.now))
       | .trig n a => (n, some (.trig a w.now))
-      | .send n a port len => (n, some (.send a { len := if is6 a then max len 48 else max len 28, port := port }))
+      | .send n a port len =>
+        -- a packet into the unsafe route is IPv4: its source is ours only if we have an IPv4 overlay address
+        let srcOk := !isRouted a || ((w.node? n).map (fun nd => nd.cfg.myAddrs.any (fun x => !is6 x))).getD true
+        (n, some (.send a { len := if is6 a then max len 48 else max len 28, port := port, srcOk := srcOk }))
       | .del n li => (n, some (.del li))
       | .swap n li => (n, some (.swap li))
       | .cmcheck n li i o => (n, some (.cmcheck li i o))
@@ -139,6 +149,16 @@ def Net.stepCore (w : Net) : Op → Net × Option Nat × String × Out
 def Net.resolve (w : Net) : Op → Op
   | .dl j => if j < w.log.length then .deliver (w.log.length - 1 - j) else .dl j
   | .dlto j m => if j < w.log.length then .dto (w.log.length - 1 - j) m else .dlto j m
+  | .dlm j r c =>
+    -- the header of a handshake packet is not authenticated. Reserved bytes are never looked at; the counter
+    -- only decides the dispatch: 1 = first message (needs remote index 0), anything else = continuation by index
+    if j < w.log.length then
+      let k := w.log.length - 1 - j
+      match (w.log[k]?).bind (fun e => alookup e.1 w.pkts) with
+      | some (_, .s1 ..) => if c == 0 || c == 1 then .deliver k else .dropAt k
+      | some (_, .s2 ..) => if c == 1 then .dropAt k else .deliver k
+      | none => .dlm j r c
+    else .dlm j r c
   | op => op
 
 def Net.step (w : Net) (op : Op) : Net × Option Nat × String × Out := w.stepCore (w.resolve op)
